@@ -110,6 +110,10 @@ def run(ctx):
             tracecheck.selftest_reject(ctx, "TraceEndPoint", "TraceEndPoint_stress.cfg", sp, dup_closer, "duplicated-closer")
             ctx.extra["binding_selftests"] = ["dropped-qclose rejected", "duplicated-closer rejected"]
 
+    # (c'') the outgoing path and shutdown under a stalled peer (EndPointStall.tla)
+    import ext_stall
+    ext_stall.run(ctx)
+
     # (c') the repository's own tests, run with the hooks on, as a trace corpus (DESIGN 4.6)
     if not ctx.violations:
         corpus.validate_endpoints(ctx, ["./bus/...", "./examples/..."], runs=3 if thorough else 1)
